@@ -506,6 +506,13 @@ impl HuffmanTree {
             let code_length = data[offset + 1] as usize;
             offset += 2;
 
+            // Every code `serialize` writes has at least one bit (a single-symbol tree codes
+            // its symbol with one bit).  A zero-length code would let the contextual decoders
+            // emit symbols without consuming input, bounded only by the caller's length.
+            if code_length == 0 {
+                return Err(ZiporaError::invalid_data("Huffman code of length zero"));
+            }
+
             max_code_length = max_code_length.max(code_length);
 
             // Read code bits
